@@ -24,7 +24,8 @@ func (jf *jsonFormatter) generate(
 		afterValidators  []validator
 	)
 
-	forceBefore := false
+	// The additional properties are taken from the raw map.
+	forceBefore := hasAdditionalPropertiesField(declType.Type)
 
 	for _, v := range validators {
 		desc := v.desc()
